@@ -248,6 +248,9 @@ def check_netgen(case, res):
             args = ['-o', p, '--type', kind, '--size'] + [str(x) for x in size]
             if case.get('die'):
                 args += ['--add-centers', '--die', case['die']]
+            if case.get('noise'):
+                # seeded noise on the centres: a producer given a seed (any integer, 0 included) is repeatable
+                args += ['--add-noise', str(case['noise']), '--seed', str(case['seed'])]
             try:
                 with quiet():
                     netgen.main('netgen', args)
@@ -286,6 +289,11 @@ def check_netgen(case, res):
                 except AssertionError:
                     continue            # (missing module already reported above)
                 ex, ey = (0.5 + j) * W / c, (0.5 + i) * H / r
+                if case.get('noise'):
+                    # noisy centres: present, finite, within 8 standard deviations (relative to the die) of the grid position
+                    if m.center is None or not (abs(m.center.x - ex) <= 8 * case['noise'] * W and abs(m.center.y - ey) <= 8 * case['noise'] * H):
+                        res.violation('says-different', case, dict(attrs, what='noisy-centres'), [ex, ey], repr(m.center))
+                    continue
                 if m.center is None or abs(m.center.x - ex) > 1e-9 * W or abs(m.center.y - ey) > 1e-9 * H:
                     res.violation('says-different', case, dict(attrs, what='centres'), [ex, ey], repr(m.center))
     res.case('netgen:' + kind, nontrivial=bool(nets))
@@ -507,6 +515,9 @@ LEGAL_MODS = {
     'hard1': {'hard': True, 'rectangles': [[6, 2, 2, 1]]},
     'hardE': {'hard': True, 'rectangles': [[6, 5, 2, 2], [7.5, 5, 1, 1]]},
     'fixed1': {'fixed': True, 'rectangles': [[2, 6.5, 1, 1]]},
+    # fixed modules with branches (a trunk and one / two branches)
+    'fixedN': {'fixed': True, 'rectangles': [[4.5, 6.5, 2, 1], [4.5, 7.25, 1, 0.5]]},
+    'fixedNW': {'fixed': True, 'rectangles': [[4.5, 6.5, 2, 1], [4.5, 7.25, 1, 0.5], [3.25, 6.5, 0.5, 0.5]]},
 }
 
 
@@ -636,6 +647,9 @@ def netgen_cases(tier):
                 for die in ('4x4', '10.5x2.5', '0.3x0.7'):
                     if r <= 3 and c <= 3:
                         out.append(dict(kind='netgen', type='grid', size=[r, c], die=die))
+    for (r, c) in ((2, 2), (3, 2), (1, 3)):
+        for seed in (0, 7, -3):
+            out.append(dict(kind='netgen', type='grid', size=[r, c], die='4x4', noise=0.05, seed=seed))
     for t, lo in (('chain', 2), ('star', 2), ('one-net', 2), ('ring', 3), ('ring-star', 4)):
         for n in range(lo, hi + 1):
             out.append(dict(kind='netgen', type=t, size=[n]))
@@ -706,8 +720,9 @@ def legal_cases(tier):
     out.append(dict(kind='legal', mods=['softN', 'hardE'], nets=[]))
     solved = [(['soft1', 'hardE'], [[[0, 1], 2]]), (['softN', 'hard1', 'fixed1'], [[[0, 1, 2], 2.5], [[0, 2], 1]]),
               (['softN', 'hardE', 'fixed1'], [[[0, 1], 1], [[1, 2], 0.5]]), (['soft1', 'softN'], [[[0, 1], 1]]),
-              (['hard1', 'hardE'], [[[0, 1], 3]])]
-    for mods, nets in solved[:(3 if tier == 'quick' else 5)]:
+              (['hard1', 'hardE'], [[[0, 1], 3]]), (['soft1', 'fixedN'], [[[0, 1], 1]])]
+    solved = solved[:3] + solved[5:] + solved[3:5]
+    for mods, nets in solved[:(4 if tier == 'quick' else 6)]:
         out.append(dict(kind='legal_solved', mods=mods, nets=nets, iters=(2 if tier == 'quick' else 5)))
     return out
 
